@@ -170,6 +170,16 @@ pub(super) fn animate<T: Component>(
             state_changed = true;
         }
         if position_secs >= timeline_duration && animator.state != AnimationState::Ended {
+            if state_changed {
+                // The animator skipped the playing state entirely (e.g. one frame longer than the
+                // whole animation elapsed during the delay), so the target was never evaluated
+                // at the end; make sure it holds the terminal values before reporting `Ended`.
+                if let Ok(mut target) = targets.get_mut(entity) {
+                    if let Some(timeline) = animator.timeline.as_ref() {
+                        timeline.update(&mut target, position_secs);
+                    }
+                }
+            }
             animator.state = AnimationState::Ended;
             state_changed = true;
         }
